@@ -84,6 +84,8 @@ type JobsScenario struct {
 	// JSWorkers: the jobs get an identity javascript transform with this Parallelism and a log error handler, keep their
 	// real source (dataset A with four entities, one batch): the transform workers of one batch run next to each other
 	JSWorkers int `json:"js_workers,omitempty"`
+	// JSThrowOn: the transform throws for the entity whose id contains this (one chunk of the batch fails)
+	JSThrowOn string `json:"js_throw_on,omitempty"`
 }
 
 type JobsOp struct {
@@ -133,6 +135,9 @@ func c11RunSched(sc *JobsScenario, prefix []int, horizon int) *vsync.Execution {
 		if sc.JSWorkers > 0 {
 			sp.BatchSize = 4
 			sp.JS = `function transform_entities(entities) { return entities; }`
+			if sc.JSThrowOn != "" {
+				sp.JS = `function transform_entities(entities) { for (e of entities) { if (GetId(e).indexOf("` + sc.JSThrowOn + `") >= 0) { throw "boom"; } } return entities; }`
+			}
 			sp.Parallelism = sc.JSWorkers
 			sp.OnError = []map[string]interface{}{{"errorHandler": "log"}}
 		}
@@ -168,6 +173,7 @@ func c11RunSched(sc *JobsScenario, prefix []int, horizon int) *vsync.Execution {
 		return ""
 	}
 	statuses := []string{}
+	leftBehind := 0
 	var bodies []func()
 	for _, th := range sc.Threads {
 		th := th
@@ -176,6 +182,12 @@ func c11RunSched(sc *JobsScenario, prefix []int, horizon int) *vsync.Execution {
 				switch op.K {
 				case "run":
 					jobsL[op.J].Run()
+					if sc.JSWorkers > 0 {
+						// the run has ended (outcome recorded, slot free): nothing it started may still be at work
+						if n := s.LiveSpawned(); n > 0 {
+							leftBehind = n
+						}
+					}
 				case "kill":
 					jw.Sched.KillJob(ids[op.J])
 				case "status":
@@ -202,6 +214,9 @@ func c11RunSched(sc *JobsScenario, prefix []int, horizon int) *vsync.Execution {
 	}
 	if len(jw.Runner.raffle.runningJobs) != 0 {
 		x.Viol = append(x.Viol, "C11:slot-not-released::after all requests finished the raffle still lists running jobs")
+	}
+	if leftBehind > 0 {
+		x.Viol = append(x.Viol, fmt.Sprintf("C11:work-outlives-run::when job.Run returned (outcome recorded, run slot released) %d goroutine(s) it had started were still at work: that work runs outside any run slot and overlaps with the next run of the same id", leftBehind))
 	}
 	if jw.Runner.raffle.ticketsFull != fullBefore || jw.Runner.raffle.ticketsIncr != incrBefore {
 		x.Viol = append(x.Viol, fmt.Sprintf("C11:ticket-not-returned::tickets before %d/%d after %d/%d", fullBefore, incrBefore, jw.Runner.raffle.ticketsFull, jw.Runner.raffle.ticketsIncr))
@@ -282,6 +297,9 @@ func c11Sched(r *engine.Run) {
 		{Name: "J9-two-fullsync-jobs-one-ticket", Jobs: []string{"fullsync", "fullsync"}, Threads: [][]JobsOp{{{K: "run", J: 0}}, {{K: "run", J: 1}, {K: "status"}}}},
 		// the transform workers of one batch: a javascript transform behind the log handler's wrapper
 		{Name: "J10-parallel-javascript-workers-with-log-handler", Jobs: []string{"incremental"}, JSWorkers: 2, Threads: [][]JobsOp{{{K: "run", J: 0}}}},
+		// one chunk of the batch fails in the transform while the other is (or is about to be) at work; then the job runs again
+		{Name: "J11-parallel-javascript-workers-one-chunk-fails", Jobs: []string{"incremental"}, JSWorkers: 2, JSThrowOn: ":e1_", Threads: [][]JobsOp{{{K: "run", J: 0}, {K: "run", J: 0}}}},
+		{Name: "J12-parallel-javascript-workers-last-chunk-fails", Jobs: []string{"incremental"}, JSWorkers: 2, JSThrowOn: ":e4_", Threads: [][]JobsOp{{{K: "run", J: 0}}}},
 		{Name: "J7-same-job-twice-two-tickets", Jobs: []string{"incremental"}, Pool: 2, Threads: [][]JobsOp{{{K: "run", J: 0}}, {{K: "run", J: 0}}}},
 		{Name: "J8-cron-vs-manual-two-tickets", Jobs: []string{"incremental"}, Pool: 2, Threads: [][]JobsOp{{{K: "run", J: 0}}, {{K: "manual", J: 0}}}},
 		{Name: "J6-incr-and-full-and-status", Jobs: []string{"incremental", "fullsync"}, Threads: [][]JobsOp{{{K: "run", J: 0}}, {{K: "run", J: 1}}, {{K: "status"}, {K: "kill", J: 1}}}},
